@@ -204,7 +204,8 @@ def run(tier, seed):
         streams.append(("exhaustive depth<=2 offsets 0..6", [list(c) for d in (1, 2) for c in itertools.product(all_ops(6), repeat=d)]))
         streams.append(("exhaustive depth 3 offsets 0..4", [list(c) for c in itertools.product(all_ops(4), repeat=3)]))
         streams.append(("exhaustive depth 4 offsets 0..2", [list(c) for c in itertools.product(all_ops(2), repeat=4)]))
-        streams.append(("random", gen_random(rng, 20000, 40, 64)))
+        streams.append(("random", gen_random(rng, 150000, 40, 64)))
+    streams = [(l, list(common.share(c))) for l, c in streams]
     for label, cases in streams:
         if not explore(cases, v, stats, label):
             break
@@ -234,7 +235,7 @@ def run(tier, seed):
         "samples": [streams[-1][1][0], streams[1][1][-1]] if streams[-1][1] else [],
         "exhaustive": False,
     })
-    v.assumptions = ["python dict insertion-order semantics as modelled in LostSeg.v (validated by this run)"]
+    v.assumptions = list(common.ASSUMPTIONS) + ["python dict insertion-order semantics as modelled in LostSeg.v (validated by this run)"]
     return v.finish()
 
 
